@@ -87,10 +87,11 @@ def run(report: Report, tier, seed):
         fails = [{"input": {"abisub": [b["seed"], b["version"], b["opts"]]}, "mismatches": [{"what": b["problems"][0]}], "teal": b.get("teal")}] + fails
     from . import recur_scenarios
     rr = pool_map(recur_scenarios.case, recur_scenarios.jobs(tier))
+    rr += pool_map(recur_scenarios.byref_case, recur_scenarios.byref_jobs())
     rbad = [r for r in rr if r["problems"]]
     report.bounded.append(Bounded(function="mutually / self recursive routines of every pair of kinds (plain value / plain none / ABI output / ABI void)",
                                   contract="the call returns the value of the Python recurrence and a local written before the re-entrant call is intact after it, in both calling conventions",
-                                  bound=f"{len(rr)} (caller kind, callee kind, kind of local, self/mutual) scenarios x versions 6..10 x 9 option settings x depths {recur_scenarios.DEPTHS}",
+                                  bound=f"{len(rr)} (caller kind, callee kind, kind of local, self/mutual) scenarios x versions 6..10 x 9 option settings x depths {recur_scenarios.DEPTHS}; plus recursion through a by-reference parameter (refused when built, or right)",
                                   cases=sum(r["ran"] for r in rr), distinct_nontrivial=len(rr), failures=len(rbad)))
     if rbad:
         b = rbad[0]
@@ -143,7 +144,8 @@ def replay(data):
         return 1 if out["problems"] else 0
     if (nat.get("input") or {}).get("recursion"):
         from . import recur_scenarios
-        out = recur_scenarios.case(tuple(nat["input"]["recursion"]))
+        j = tuple(nat["input"]["recursion"])
+        out = recur_scenarios.byref_case(j) if len(j) == 2 else recur_scenarios.case(j)
         print([{k: v for k, v in p.items() if k != "teal"} for p in out["problems"][:2]])
         return 1 if out["problems"] else 0
     spec = (nat.get("input") or {}).get("spec")
